@@ -111,16 +111,31 @@ func genTypeSpec(t *rapid.T, depth int) TypeSpec {
 		n := rapid.IntRange(1, 3).Draw(t, "nalts")
 		tags := rapid.Permutation(tagPool).Draw(t, "tags")
 		s := TypeSpec{Kind: "choice"}
+		untagged := rapid.IntRange(0, 4).Draw(t, "untaggedAlt") == 0
 		for i := 0; i < n; i++ {
 			ft := genTypeSpec(t, depth+1)
-			s.Fields = append(s.Fields, FieldSpec{Name: fmt.Sprintf("A%d", i), Ptr: true, Type: ft, Tag: fieldTag(t, tags[i], ft, false)})
+			f := FieldSpec{Name: fmt.Sprintf("A%d", i), Ptr: true, Type: ft, Tag: fieldTag(t, tags[i], ft, false)}
+			if untagged && i == 0 {
+				// one alternative without tagNum: a universal type (as IPBinaryAddress has an untagged nested CHOICE)
+				f.Type, f.Tag = TypeSpec{Prim: rapid.SampledFrom([]string{"int", "bool", "octets", "bitstring", "utf8", "enum", "null"}).Draw(t, "untaggedPrim")}, ""
+			}
+			s.Fields = append(s.Fields, f)
 		}
 		return s
 	default:
 		n := rapid.IntRange(1, 4).Draw(t, "nfields")
 		tags := rapid.Permutation(tagPool).Draw(t, "tags")
 		s := TypeSpec{Kind: "struct"}
+		untagged := -1
+		if rapid.IntRange(0, 3).Draw(t, "untaggedMember") == 0 {
+			untagged = rapid.IntRange(0, n-1).Draw(t, "untaggedIdx")
+		}
 		for i := 0; i < n; i++ {
+			if i == untagged {
+				// one member without tagNum, matched by its universal tag (as in IPBinV6AddressWithPrefixLength)
+				s.Fields = append(s.Fields, FieldSpec{Name: fmt.Sprintf("F%d", i), Type: TypeSpec{Prim: rapid.SampledFrom([]string{"int", "bool", "octets", "bitstring", "utf8", "enum", "null"}).Draw(t, "untaggedPrim")}})
+				continue
+			}
 			ft := genTypeSpec(t, depth+1)
 			opt := rapid.IntRange(0, 2).Draw(t, "optional") > 0
 			f := FieldSpec{Name: fmt.Sprintf("F%d", i), Type: ft}
